@@ -1,6 +1,8 @@
 package batched
 
 import (
+	"errors"
+
 	"github.com/cloudflare/pat-go/tokens"
 	"github.com/cloudflare/pat-go/tokens/type1"
 	"github.com/cloudflare/pat-go/tokens/type2"
@@ -25,4 +27,17 @@ func vBatch(n int) ([]tokens.TokenRequestWithDetails, []bool, [][]byte, []byte) 
 	}
 	return reqs, isT1, elems, ids
 }
+
+// adapters over the real issuers (the repository ships them only in its tests)
+type c05T1 struct{ i *type1.BasicPrivateIssuer }
+
+func (a c05T1) Evaluate(req tokens.TokenRequest) ([]byte, error) {
+	r, ok := req.(*type1.BasicPrivateTokenRequest)
+	if !ok {
+		return nil, errors.New("wrong request type")
+	}
+	return a.i.Evaluate(r)
+}
+func (a c05T1) TokenKeyID() []byte { return a.i.TokenKeyID() }
+func (a c05T1) Type() uint16       { return a.i.Type() }
 
